@@ -310,13 +310,28 @@ func fullWidth(w string) string {
 	return sb.String()
 }
 
+// alsoSeed: every word sequence that chain() decodes is also handed to MnemonicToSeed (C09: "an invalid mnemonic yields
+// an error and no seed" is about the same set of sequences as C03's decoder, so C09 inherits all of C03's input classes)
+var alsoSeed bool
+
+func emitDecode(in M) {
+	emit("bip39.MnemonicToEntropy", in)
+	if alsoSeed {
+		c := M{"words": in["words"], "pass": vInts([]byte("p\u00e5ss"))}
+		if l, ok := in["lang"]; ok {
+			c["lang"] = l
+		}
+		emit("bip39.MnemonicToSeed", c)
+	}
+}
+
 func chain(r *rand.Rand, ent []byte, full bool) {
 	out := emit("bip39.EntropyToMnemonic", M{"entropy": vInts(ent)})
 	if out["ok"] != true {
 		return
 	}
 	ws := out["words"].([][]int)
-	emit("bip39.MnemonicToEntropy", M{"words": ws})
+	emitDecode(M{"words": ws})
 	{ // the empty string is not a list word: in place of the first word, and of every leading occurrence of word 0
 		c := make([][]int, len(ws))
 		copy(c, ws)
@@ -324,7 +339,7 @@ func chain(r *rand.Rand, ent []byte, full bool) {
 		for i := 0; i < len(c) && (i == 0 || string(vBytesOfInts(c[i])) == first); i++ {
 			c[i] = []int{}
 		}
-		emit("bip39.MnemonicToEntropy", M{"words": c})
+		emitDecode(M{"words": c})
 	}
 	if !full {
 		return
@@ -333,7 +348,7 @@ func chain(r *rand.Rand, ent []byte, full bool) {
 	mut := func(f func(w [][]int) [][]int) {
 		c := make([][]int, len(ws))
 		copy(c, ws)
-		emit("bip39.MnemonicToEntropy", M{"words": f(c)})
+		emitDecode(M{"words": f(c)})
 	}
 	all := dumpWords()
 	// swap two words, replace the last word (incl. other valid-checksum candidates), unknown word, wrong counts
@@ -343,6 +358,10 @@ func chain(r *rand.Rand, ent []byte, full bool) {
 	}
 	mut(func(w [][]int) [][]int { w[r.Intn(n)] = vInts([]byte(all[r.Intn(2048)])); return w })
 	mut(func(w [][]int) [][]int { w[r.Intn(n)] = vInts([]byte("notaword")); return w })
+	// unknown words that mean something to a formatting routine, to a path or to a shell
+	for _, bad := range []string{"%v", "50%off", "%s%s%s", "%!d(string=", "%", "a\x00b", "../x", "\\n", "{}", "$1"} {
+		mut(func(w [][]int) [][]int { w[r.Intn(n)] = vInts([]byte(bad)); return w })
+	}
 	// every bit of the embedded checksum matters: flip each of the ENT/32 checksum bits through the last word
 	idxOf := map[string]int{}
 	for i, w := range all {
@@ -375,19 +394,57 @@ func chain(r *rand.Rand, ent []byte, full bool) {
 		return append([][]int{joined}, w[2:]...)
 	})
 	// history: the same words again after the valid decode (must give the same answer), then under the other list, then back
-	emit("bip39.MnemonicToEntropy", M{"words": ws})
+	emitDecode(M{"words": ws})
 	if curLang == "english" || curLang == "japanese" {
 		back := curLang
 		other := map[string]string{"english": "japanese", "japanese": "english"}[back]
 		emit("bip39.SetWordList", M{"lang": other})
-		emit("bip39.MnemonicToEntropy", M{"words": ws, "lang": other})
+		emitDecode(M{"words": ws, "lang": other})
 		emit("bip39.SetWordList", M{"lang": back})
-		emit("bip39.MnemonicToEntropy", M{"words": ws, "lang": back})
+		emitDecode(M{"words": ws, "lang": back})
 	}
 	mut(func(w [][]int) [][]int { return w[:n-1] })
 	mut(func(w [][]int) [][]int { return append(w, w[0]) })
 	mut(func(w [][]int) [][]int { return append(w, w[0], w[1], w[2]) })
 	mut(func(w [][]int) [][]int { return w[:r.Intn(n)] })
+}
+
+// reRegister: a list registered at run time, used, then ANOTHER list registered under the same key and selected again:
+// the second registration replaces the first (spec: registry' = (lang :> words) @@ registry), nothing of the first survives
+func reRegister(r *rand.Rand, rec *vRec) {
+	setLang("english")
+	eng := dumpWords()
+	mk := func(suffix string, rev bool) [][]int {
+		c := make([][]int, 2048)
+		for i := range c {
+			j := i
+			if rev {
+				j = 2047 - i
+			}
+			c[i] = vInts([]byte(eng[j] + suffix))
+		}
+		return c
+	}
+	rec.newTrace()
+	emit("bip39.RegisterWordList", M{"lang": "again", "words": mk("y", true)})
+	emit("bip39.SetWordList", M{"lang": "again"})
+	e1 := make([]byte, 16)
+	r.Read(e1)
+	chain(r, e1, false)
+	first := emit("bip39.EntropyToMnemonic", M{"entropy": vInts(e1)})
+	emit("bip39.RegisterWordList", M{"lang": "again", "words": mk("y", false)}) // same words, other order
+	emit("bip39.SetWordList", M{"lang": "again"})
+	chain(r, e1, true)
+	if ws, ok := first["words"].([][]int); ok {
+		emitDecode(M{"words": ws}) // the sentence of the replaced list: judged under the new one
+	}
+	emit("bip39.RegisterWordList", M{"lang": "again", "words": mk("z", false)}) // other words
+	emit("bip39.SetWordList", M{"lang": "again"})
+	chain(r, e1, false)
+	if ws, ok := first["words"].([][]int); ok {
+		emitDecode(M{"words": ws})
+	}
+	emit("bip39.SetWordList", M{"lang": "english"})
 }
 
 // parChild: concurrent use of the package right after a word list was selected, in a child process (a data race on
@@ -568,6 +625,7 @@ func TestVerifDriver(t *testing.T) {
 			emit("bip39.SetWordList", M{"lang": "english"})
 			chain(r, make([]byte, 16), false)
 		}
+		reRegister(r, rec)
 		// every word index of each list at least once (thorough: all, quick: a stride)
 		stride := vEnvInt("VERIF_STRIDE", 16)
 		for _, lg := range langs {
@@ -583,6 +641,18 @@ func TestVerifDriver(t *testing.T) {
 		return
 	}
 	// C09: seeds and sentence parsing
+	// ... first: every class of word sequences of C03, handed to MnemonicToSeed as well
+	alsoSeed = true
+	for _, lg := range langs {
+		setLang(lg)
+		for _, el := range []int{16, 32, 64} {
+			ent := make([]byte, el)
+			r.Read(ent)
+			chain(r, ent, true)
+		}
+	}
+	reRegister(r, rec)
+	alsoSeed = false
 	spacers := nfkdSpacers()
 	for round := 0; round < 1+n/40; round++ {
 		for _, lg := range langs {
